@@ -76,6 +76,9 @@ def handleCase (xs : List Int) : String :=
             "ref=" ++ ref,
             "ar=" ++ ";".intercalate ((sortByKey ar).map fun p => s!"{p.1}:" ++ "/".intercalate ((p.2.mergeSort lexLe).map commas)),
             "ars=" ++ ";".intercalate ((sortByKey ars).map fun p => s!"{p.1}:{commas (sortNats p.2)}"),
+            "arom=" ++ (match aromaticRings m rings with
+              | none => "raise"
+              | some out => "/".intercalate ((out.mergeSort lexLe).map commas)),
             "marks=" ++ ";".intercalate (((ringMarks m rings).mergeSort fun a b => decide (a.n ≤ b.n)).map showMark)]
 
 def showOptRing : Option (List Nat) → String
